@@ -228,7 +228,8 @@ theorem C03_client_mech_used (cm : List (String × Mech)) (adv : List String) (p
     name ∈ adv ∧ name ∈ cm.map (·.1) ∧
     ∃ resp rest, (clientNeg cm adv peer).sent = .auth name resp :: rest ∨
       ((clientNeg cm adv peer).sent = [] ∧
-        ((clientNeg cm adv peer).err = .mechErr ∨ (clientNeg cm adv peer).err = .panicked)) := by
+        ((clientNeg cm adv peer).err = .mechErr ∨ (clientNeg cm adv peer).err = .panicked ∨
+          (clientNeg cm adv peer).err = .authnErr)) := by
   unfold clientNeg at h ⊢
   cases hs : select cm adv with
   | none => simp [hs, fail] at h
@@ -244,7 +245,7 @@ theorem C03_client_mech_used (cm : List (String × Mech)) (adv : List String) (p
         subst h <;> refine ⟨h1, hmem, ?_⟩
       · exact ⟨(mech []).resp, _, Or.inl rfl⟩
       · exact ⟨(mech []).resp, _, Or.inl rfl⟩
-      · exact ⟨[], [], Or.inr ⟨rfl, Or.inl rfl⟩⟩
+      · exact ⟨[], [], Or.inr ⟨rfl, Or.inr (Or.inr rfl)⟩⟩
       · refine ⟨[], [], Or.inr ⟨rfl, ?_⟩⟩
         simp only [fail, stepErr]
         cases (mech []).panic <;> simp
